@@ -110,6 +110,7 @@ Record facts := mkFacts {
   f_call_fallback : call_fallback;
   f_call_arity : bool;                     (* table hit only when len(args) matches *)
   f_call_kw_reject : bool;                 (* keywords => NotImplementedError *)
+  f_unary_qual : list (mkind * Z);         (* UNARY_QUALIFIER: leading integer child of a unary table call *)
   f_lib_parents : list string;             (* ("math", "np", "numpy") *)
   f_attr_consts : list (string * ml);      (* e, pi, inf, nan *)
   f_derived_role : role;                   (* species reference created for a Derived coefficient *)
@@ -120,6 +121,8 @@ Record facts := mkFacts {
 
 Fixpoint lookup_s {A} (k : string) (l : list (string * A)) : option A :=
   match l with [] => None | (k', v) :: r => if String.eqb k k' then Some v else lookup_s k r end.
+Fixpoint lookup_kind {A} (k : mkind) (l : list (mkind * A)) : option A :=
+  match l with [] => None | (k', v) :: r => if mkind_beq k k' then Some v else lookup_kind k r end.
 Fixpoint lookup_by {K A} (eqb : K -> K -> bool) (k : K) (l : list (K * A)) : option A :=
   match l with [] => None | (k', v) :: r => if eqb k k' then Some v else lookup_by eqb k r end.
 Definition mem_s (k : string) (l : list string) : bool := existsb (String.eqb k) l.
@@ -145,7 +148,12 @@ Section Convert.
         if negb ar || Nat.eqb nargs 1 then
           Some (match first with
                 | None => Err ErrIndex
-                | Some r => do a <- r; Ok (MApp k (MCons a MNil))
+                | Some r =>
+                    do a <- r;
+                    match lookup_kind k (f_unary_qual F) with
+                    | Some z => Ok (MApp k (MCons (MInt z) (MCons a MNil)))   (* _unary_call *)
+                    | None => Ok (MApp k (MCons a MNil))
+                    end
                 end)
         else None
     | None => None
@@ -345,6 +353,8 @@ Inductive rfun :=
 | RSin | RCos | RTan | RAsin | RAcos | RAtan | RSinh | RCosh | RTanh | RAsinh | RAcosh | RAtanh
 | RLn | RLog10 | RLogBase | RMax | RMin | RConstE | RConstPi.
 
+Scheme Equality for rfun.
+
 Definition truthy (q : Q) : bool := negb (Qeq_bool q 0).
 Definition ofb (b : bool) : Q := if b then 1 else 0.
 Definition Qlt_bool (a b : Q) : bool := negb (Qle_bool b a).
@@ -397,7 +407,8 @@ Definition kind_rfun (k : mkind) (n : nat) : option rfun :=
   | K_FUNCTION_ARCSINH, 1%nat => Some RAsinh | K_FUNCTION_ARCCOSH, 1%nat => Some RAcosh
   | K_FUNCTION_ARCTANH, 1%nat => Some RAtanh
   | K_FUNCTION_LN, 1%nat => Some RLn
-  | K_FUNCTION_LOG, 1%nat => Some RLog10       (* log without logbase = base 10 *)
+  (* K_FUNCTION_LOG: see apply_kind.  A <log/> node with a single child is not a well-formed libSBML
+     AST: setMath refuses it / the writer emits <apply><log/></apply> without the argument -> no meaning *)
   | K_FUNCTION_MAX, S _ => Some RMax
   | K_FUNCTION_MIN, S _ => Some RMin
   | _, _ => None
@@ -515,10 +526,21 @@ Section Semantics.
     | _, _ => None
     end.
 
+  (** log(base, x): <log/><logbase> base </logbase> x; base 10 is the common logarithm *)
+  Definition apply_log (vs : list Q) : option Q :=
+    match vs with
+    | [b; x] => if Qeq_bool b 10 then ufn RLog10 [x] else ufn RLogBase [x; b]
+    | _ => None
+    end.
+
   Definition apply_kind (k : mkind) (vs : list Q) : option Q :=
-    match kind_rfun k (List.length vs) with
-    | Some f => ufn f vs
-    | None => apply_arith k vs
+    match k with
+    | K_FUNCTION_LOG => apply_log vs
+    | _ =>
+      match kind_rfun k (List.length vs) with
+      | Some f => ufn f vs
+      | None => apply_arith k vs
+      end
     end.
 
   Fixpoint eval_ml (m : ml) : option Q :=
@@ -621,3 +643,120 @@ Definition res_eqb {A} (eqb : A -> A -> bool) (a b : result A) : bool :=
   | Err e, Err e' => err_beq e e' && negb (err_beq e ErrOther)   (* ErrOther never matches *)
   | _, _ => false
   end.
+
+(* ------------------------------------------------------------------------------------- *)
+(** * which facts make the converter meaning-preserving (decidable; checked on [gen_facts]) *)
+Definition unop_ok (p : unop * mkind) : bool :=
+  match p with (UNeg, K_MINUS) | (UNot, K_LOGICAL_NOT) => true | _ => false end.
+Definition binop_ok (p : binop * mkind) : bool :=
+  match p with
+  | (BMul, K_TIMES) | (BAdd, K_PLUS) | (BSub, K_MINUS) | (BDiv, K_DIVIDE) | (BPow, K_POWER)
+  | (BPow, K_FUNCTION_POWER) | (BFloorDiv, K_FUNCTION_QUOTIENT) | (BMod, K_FUNCTION_REM) => true
+  | _ => false
+  end.
+Definition cmpop_ok (p : cmpop * mkind) : bool :=
+  match rel_of_kind (snd p) with Some op => cmpop_beq op (fst p) | None => false end.
+
+(** the function a table-driven node computes (the <log/> node is handled by [apply_log]) *)
+Definition kind_fn (k : mkind) (n : nat) : option rfun :=
+  match k with K_FUNCTION_LOG => None | _ => kind_rfun k n end.
+Definition unary_ml_fn (F : facts) (k : mkind) : option rfun :=
+  match lookup_kind k (f_unary_qual F) with
+  | Some z => match k with K_FUNCTION_LOG => if Z.eqb z 10 then Some RLog10 else None | _ => None end
+  | None => kind_fn k 1
+  end.
+Definition fn_entry_ok (pyf mlf : option rfun) : bool :=
+  match pyf with
+  | None => true                                   (* Python has no such function: nothing to preserve *)
+  | Some r => match mlf with Some r' => rfun_beq r r' | None => false end
+  end.
+Definition unary_ok (F : facts) (p : string * mkind) : bool := fn_entry_ok (py_fn (fst p) 1) (unary_ml_fn F (snd p)).
+Definition binary_ok (p : string * mkind) : bool := fn_entry_ok (py_fn (fst p) 2) (kind_fn (snd p) 2).
+Definition nary_ok (p : string * mkind) : bool :=
+  (String.eqb (fst p) "max" && mkind_beq (snd p) K_FUNCTION_MAX)
+  || (String.eqb (fst p) "min" && mkind_beq (snd p) K_FUNCTION_MIN).
+Definition attr_ok (p : string * ml) : bool :=
+  match snd p with
+  | ME => String.eqb (fst p) "e"
+  | MPi => String.eqb (fst p) "pi"
+  | MInf | MNan => negb (String.eqb (fst p) "e") && negb (String.eqb (fst p) "pi")
+  | _ => false
+  end.
+Definition ifchild_eqb (a b : ifchild) : bool :=
+  match a, b with CTest, CTest | CBody, CBody | COrelse, COrelse => true | _, _ => false end.
+Fixpoint order_eqb (a b : list ifchild) : bool :=
+  match a, b with
+  | [], [] => true
+  | x :: r, y :: r' => ifchild_eqb x y && order_eqb r r'
+  | _, _ => false
+  end.
+
+Definition facts_strict (F : facts) : bool :=
+  match f_compare F, f_call_fallback F with
+  | CmpAndPairs, CallRaise => f_call_arity F && f_call_kw_reject F
+  | _, _ => false
+  end.
+
+Definition facts_good (F : facts) : bool :=
+  facts_strict F
+  && forallb unop_ok (f_unop F) && forallb binop_ok (f_binop F) && forallb cmpop_ok (f_cmpop F)
+  && forallb (unary_ok F) (f_unary F) && forallb binary_ok (f_binary F) && forallb nary_ok (f_nary F)
+  && order_eqb (f_ifexp_order F) [CBody; CTest; COrelse]
+  && forallb is_lib (f_lib_parents F) && forallb attr_ok (f_attr_consts F).
+
+(** * the representable subset, as the tables define it *)
+Definition is_some {A} (o : option A) : bool := match o with Some _ => true | None => false end.
+Definition call_hit (F : facts) (name : string) (n : nat) : bool :=
+  (is_some (lookup_s name (f_unary F)) && Nat.eqb n 1)
+  || (is_some (lookup_s name (f_binary F)) && Nat.eqb n 2)
+  || (is_some (lookup_s name (f_nary F)) && negb (Nat.eqb n 0)).
+
+Fixpoint supported (F : facts) (e : expr) : bool :=
+  match e with
+  | EName _ | EInt _ | EReal _ | EBool _ => true
+  | EConstOther | EOtherNode | ECallOther _ => false
+  | EUn op a => is_some (lookup_by unop_beq op (f_unop F)) && supported F a
+  | EBin op l r => is_some (lookup_by binop_beq op (f_binop F)) && supported F l && supported F r
+  | ECmp l ch => supported F l && match ch with ChNil => false | ChCons _ _ _ => supported_chain F ch end
+  | EIf t b o => supported F t && supported F b && supported F o
+  | ECallName f args kw => negb kw && call_hit F f (elen args) && supported_list F args
+  | ECallAttr p a args kw => negb kw && mem_s p (f_lib_parents F) && call_hit F a (elen args) && supported_list F args
+  | EAttr p a => mem_s p (f_lib_parents F) && is_some (lookup_s a (f_attr_consts F))
+  end
+with supported_chain (F : facts) (ch : chain) : bool :=
+  match ch with
+  | ChNil => true
+  | ChCons op e r => is_some (lookup_by cmpop_beq op (f_cmpop F)) && supported F e && supported_chain F r
+  end
+with supported_list (F : facts) (es : exprs) : bool :=
+  match es with ENil => true | ECons e r => supported F e && supported_list F r end.
+
+(** a function whose body is one `return <expr>` (docstrings aside) *)
+Definition single_return (fd : fundef) (e : expr) : Prop :=
+  filter (fun s => negb (is_doc s)) (fd_body fd) = [SReturn e].
+
+(** * earlier values of repaired facts (regression witnesses in PropsC08.v) *)
+Definition set_ifexp_order (o : list ifchild) (F : facts) : facts :=
+  mkFacts (f_unary F) (f_binary F) (f_nary F) (f_unop F) (f_binop F) (f_cmpop F) o (f_compare F) (f_call_fallback F)
+          (f_call_arity F) (f_call_kw_reject F) (f_unary_qual F) (f_lib_parents F) (f_attr_consts F) (f_derived_role F)
+          (f_num_stoich F) (f_ia_setter F) (f_shapes_ok F).
+Definition set_compare (c : compare_mode) (F : facts) : facts :=
+  mkFacts (f_unary F) (f_binary F) (f_nary F) (f_unop F) (f_binop F) (f_cmpop F) (f_ifexp_order F) c (f_call_fallback F)
+          (f_call_arity F) (f_call_kw_reject F) (f_unary_qual F) (f_lib_parents F) (f_attr_consts F) (f_derived_role F)
+          (f_num_stoich F) (f_ia_setter F) (f_shapes_ok F).
+Definition set_call (fb : call_fallback) (arity kw : bool) (F : facts) : facts :=
+  mkFacts (f_unary F) (f_binary F) (f_nary F) (f_unop F) (f_binop F) (f_cmpop F) (f_ifexp_order F) (f_compare F) fb
+          arity kw (f_unary_qual F) (f_lib_parents F) (f_attr_consts F) (f_derived_role F)
+          (f_num_stoich F) (f_ia_setter F) (f_shapes_ok F).
+Definition set_unary_qual (q : list (mkind * Z)) (F : facts) : facts :=
+  mkFacts (f_unary F) (f_binary F) (f_nary F) (f_unop F) (f_binop F) (f_cmpop F) (f_ifexp_order F) (f_compare F)
+          (f_call_fallback F) (f_call_arity F) (f_call_kw_reject F) q (f_lib_parents F) (f_attr_consts F) (f_derived_role F)
+          (f_num_stoich F) (f_ia_setter F) (f_shapes_ok F).
+Definition set_derived_role (r : role) (F : facts) : facts :=
+  mkFacts (f_unary F) (f_binary F) (f_nary F) (f_unop F) (f_binop F) (f_cmpop F) (f_ifexp_order F) (f_compare F)
+          (f_call_fallback F) (f_call_arity F) (f_call_kw_reject F) (f_unary_qual F) (f_lib_parents F) (f_attr_consts F) r
+          (f_num_stoich F) (f_ia_setter F) (f_shapes_ok F).
+Definition set_ia_setter (i : ia_setter) (F : facts) : facts :=
+  mkFacts (f_unary F) (f_binary F) (f_nary F) (f_unop F) (f_binop F) (f_cmpop F) (f_ifexp_order F) (f_compare F)
+          (f_call_fallback F) (f_call_arity F) (f_call_kw_reject F) (f_unary_qual F) (f_lib_parents F) (f_attr_consts F)
+          (f_derived_role F) (f_num_stoich F) i (f_shapes_ok F).
